@@ -2374,14 +2374,27 @@ func (fr *Frame) hintsAtCall(call *ssa.Call) {
 		if !fr.x.active(cl) {
 			continue
 		}
+		avars := map[string]sval{}
+		k := 0
+		if call.Common().IsInvoke() {
+			avars["a0"] = sval{t: fr.val(call.Common().Value), typ: call.Common().Value.Type(), sort: sortOf(call.Common().Value.Type())}
+			k = 1
+		}
+		for i, a := range call.Common().Args {
+			avars[fmt.Sprintf("a%d", i+k)] = sval{t: fr.val(a), typ: a.Type(), sort: sortOf(a.Type())}
+		}
+		se := fr.specEnvFor(fr.cur, fr.entry, fr.mergeVars(avars), true)
+		for n := range avars {
+			se.bound[n] = true
+		}
 		if ac.Assume {
 			fr.x.externs[fmt.Sprintf("ASSUMED (unchecked) in %s before call %s#%d: %s", fr.fn.Name(), ac.Callee, ac.N, ac.Text)] = true
-			t := fr.evalSpecBool(ac.Expr, fr.cur, fr.entry, nil)
+			t := se.eval(ac.Expr).t
 			fr.c().assume(imp(fr.cur.reach, t))
 			continue
 		}
 		for _, cj := range splitConj(ac.Expr) {
-			fr.proveSpec("hint", fmt.Sprintf("proof hint before call %s#%d: %s", ac.Callee, ac.N, cj.String()), cl, cj, fr.cur, fr.entry, nil)
+			fr.proveSpecEnv("hint", fmt.Sprintf("proof hint before call %s#%d: %s", ac.Callee, ac.N, cj.String()), cl, cj, se)
 		}
 	}
 }
